@@ -206,6 +206,11 @@ namespace sim
       return g_buf.base;
    }
 
+   const char* g_buf_end() noexcept
+   {
+      return g_buf.end;
+   }
+
    void soft_violation( std::uint32_t what, std::uint64_t value, const Snap& s )
    {
       log_event( Ev::SOFT, 0, 0, 0, 0, s, 0, what, static_cast< std::uint32_t >( value ) );
